@@ -8,8 +8,58 @@ INT64_MIN, INT64_MAX = -(2 ** 63), 2 ** 63 - 1
 # two pairs of distinct names with the same 32-bit murmur3 value (found by brute force over "c<i>";
 # verified at start-up): they exercise the `hash == hash && !strcmp` order of the chain search
 FULL_COLLISIONS = [(b"c100368", b"c119089"), (b"c4234", b"c146789"), (b"k118215", b"k351535"), (b"k5d39", b"k8a9df")]
+# a key and a proper EXTENSION of it with the same 32-bit murmur3 value (found by checks/prefixcoll.c,
+# ~2^32 candidates per pair, 16 threads: 4 s per pair; verified here, so no search at check time): a
+# chain search that compares only strlen(shorter) bytes (memcmp without the terminator) confuses
+# exactly such keys. The tables hash strlen(name) bytes; the first two pairs also collide when both
+# names are hashed WITH their terminator (a NUL tail byte adds nothing but the length).
+PREFIX_COLLISIONS = [(b"pk10", b"pk10cr4alz"), (b"pk13", b"pk13erls8n"), (b"pk4", b"pk4bzx1z0"), (b"pk16", b"pk16novg4r"),
+                     (b"pk32", b"pk32nmkvhm")]
+PREFIX_COLLISIONS_NUL = [(b"pk10", b"pk10cr4alz"), (b"pk13", b"pk13erls8n"), (b"pk4", b"pk4if7ls1")]
+for _a, _b in PREFIX_COLLISIONS:
+    assert _b.startswith(_a) and _a != _b and murmur3_32(_a) == murmur3_32(_b), (_a, _b)
+for _a, _b in PREFIX_COLLISIONS_NUL:
+    assert _b.startswith(_a) and murmur3_32(_a + b"\0") == murmur3_32(_b + b"\0"), (_a, _b)
+FULL_COLLISIONS += PREFIX_COLLISIONS[:3]        # appended: the indices used elsewhere stay
 for _a, _b in FULL_COLLISIONS:
     assert _a != _b and murmur3_32(_a) == murmur3_32(_b), (_a, _b)
+
+
+def search_prefix_collisions(n=3, nul=False):
+    """(re)run the search: builds checks/prefixcoll.c into build/ and caches its output there"""
+    import subprocess
+    exe = os.path.join(vlib.BUILD, "prefixcoll")
+    out = os.path.join(vlib.BUILD, "prefixcoll%s-%d.txt" % ("-nul" if nul else "", n))
+    if not os.path.exists(out):
+        os.makedirs(vlib.BUILD, exist_ok=True)
+        subprocess.run(["gcc", "-O2", "-pthread", os.path.join(vlib.ROOT, "checks", "prefixcoll.c"), "-o", exe], check=True)
+        r = subprocess.run([exe, str(n), str(os.cpu_count() or 4)] + (["nul"] if nul else []), capture_output=True, text=True, check=True)
+        open(out, "w").write(r.stdout)
+    return [(l.split()[0].encode(), (l.split()[0] + l.split()[1]).encode()) for l in open(out) if l.strip()]
+
+
+def py_textout(v):
+    """`_q_textout(fp, data, size, 60)` as documented by its use in debug(): printable bytes, `.` for
+    the others, a terminating NUL of a string value not shown, `...` after 60 bytes"""
+    out = bytearray()
+    for i, c in enumerate(v[:60]):
+        if c == 0 and i == len(v) - 1:
+            break
+        out.append(c if 32 <= c <= 126 else 46)
+    return bytes(out) + (b"..." if len(v) > 60 else b"")
+
+
+def py_debug_line(name, v):
+    return name + b"=" + py_textout(v) + b" (%d, %08x)\n" % (len(v), murmur3_32(name))
+
+
+def alias_value(old, mode, off, ln):
+    """the bytes a put / putstr of `stored + off` stores; None = the call is not made (skip)"""
+    if old is None or off > len(old):
+        return None
+    if mode & 1:
+        return old[off:].split(b"\0")[0] + b"\0" if b"\0" in old[off:] else None
+    return old[off:off + ln] if off + ln <= len(old) else None
 assert murmur3_32(b"k118215") == 0x0d4a73d6 and murmur3_32(b"k5d39") == 0x00f65ad1
 # formatted lengths around the buffer sizes 1024 / 2048 / 4096 / 8192 of DYNAMIC_VSPRINTF (putstrf)
 VS_LENGTHS = list(range(1000, 1026)) + list(range(2040, 2051)) + list(range(4090, 4101)) + [5000, 10000]
@@ -101,8 +151,10 @@ class Oracle:
         kind = w[0]
         m = self.m
         bad = None
-        if not r or r[0] in ("bad-op", "skip"):
-            return None if r and r[0] == "skip" else "harness rejected the operation"
+        if not r or r[0] == "bad-op":
+            return "harness rejected the operation"
+        if r[0] == "skip" and kind not in ("putalias", "putkeyalias"):
+            return None
         if r[0] == "fault":
             return "undefined behaviour predicted: " + res
         if kind in ("new", "end"):     # `end`: the table is released and replaced by an empty default one
@@ -147,6 +199,39 @@ class Oracle:
                 bad = "size reported %s, the map holds %d keys" % (res, len(m))
         elif kind == "clear":
             m.clear()
+        elif kind == "putalias":
+            # the data argument points into the stored value of the same key: the OLD bytes are stored
+            name = unhex(w[1])
+            val = alias_value(m.get(name), int(w[3]), int(w[4]), int(w[5]))
+            if val is None:
+                if res != "skip":
+                    bad = "harness made a call it should have skipped: %s" % res
+            else:
+                if r[0] != "true":
+                    bad = "put of a pointer into the entry's own value reported %s" % res
+                m[name] = val
+        elif kind == "putkeyalias":
+            name, off = unhex(w[1]), int(w[3])
+            if name not in m or off > len(name):
+                if res != "skip":
+                    bad = "harness made a call it should have skipped: %s" % res
+            else:
+                if r[0] != "true":
+                    bad = "put with a name pointing into a stored name reported %s" % res
+                m[name[off:]] = unhex(w[4])
+        elif kind == "debug":
+            want = [py_debug_line(k, v) for k, v in m.items()]
+            out = unhex(r[2]) if len(r) == 3 else b""
+            if r[0] != "debug" or r[1] != "1":
+                bad = "debug() on an open stream reported %s" % res[:40]
+            elif any(b"\n" in k for k in m):
+                if sorted(out) != sorted(b"".join(want)):
+                    bad = "debug() wrote %r; the entries render as %r" % (out[:80], b"".join(sorted(want))[:80])
+            elif sorted(out.split(b"\n")) != sorted(b"".join(want).split(b"\n")):
+                bad = "debug() wrote %r; the entries render as (any order) %r" % (out[:120], b"".join(sorted(want))[:120])
+        elif kind == "hugeval":
+            if res != "ok":
+                bad = "value of 2^32 + %s bytes: %s" % (w[1], res)
         elif kind == "inv":
             # documented-invalid arguments (NULL name / data / obj): every call fails with EINVAL,
             # debug(NULL stream) with EIO, no out-parameter is written, the table is unchanged
@@ -157,8 +242,8 @@ class Oracle:
                        "putstrf(NULL) putint(NULL) get(NULL)x3 getstr(NULL)x2 getint(NULL) remove(NULL) getnext(NULL)x2 "
                        "debug(NULL)): %s" % " ".join(r[1:]))
         elif kind == "lock":
-            if res != "locked size %d" % len(m):
-                bad = "size inside lock/unlock reported %s, the map holds %d keys" % (res, len(m))
+            if r[:4] != ["locked", "size", "%d" % len(m), "nested=ENOENT"] or r[4:] not in (["nolock"], ["held=1", "after=0"]):
+                bad = "lock(); nested get of an absent key; size; [other thread: mutex busy]; unlock(); [other thread: mutex free] gave `%s` (map holds %d keys)" % (res, len(m))
         elif kind == "walk":
             toks = r[1:]
             got, i = [], 0
@@ -357,6 +442,55 @@ class TheCheck(Check):
         sts.append(Stream("invalid-args-locks-ctor", ops, history=True,
                           note="inv = 17 documented-invalid calls; ranges 0 (default) 1 2 3 1000 100003 2^20; QHASHTBL_THREADSAFE on/off"))
 
+        # 3e. arguments that point INTO the table's own storage (pointer from get / getnext with newmem=false):
+        #     every offset / length of short values, put and putstr; names pointing into stored names;
+        #     debug() rendering of empty / 1-byte / 59..61-byte / unprintable values
+        ops = []
+        vals = [b"", b"a", b"\0", b"ab\0", b"hello\0", b"a\0b\0", b"\0\0x", bytes(range(1, 9))]
+        for r in (1, 3, 0):
+            ck = colliding(r or 1000, 3, b"al", start=rng.randrange(200))
+            for v in vals:
+                for off in range(len(v) + 2):
+                    for mode, ln in [(m_, l_) for m_ in (0, 2) for l_ in range(len(v) - off + 2)] + [(1, 0), (3, 0)]:
+                        if r != 1 and (mode, ln) not in ((0, 0), (0, 1), (2, len(v) - off), (1, 0), (3, 0)):
+                            continue
+                        ops += ["new %d" % r, kop("put", ck[0], "70"), kop("put", ck[1], hexs(v)), kop("put", ck[2], "71"),
+                                kop("putalias", ck[1], str(mode), str(off), str(ln)), kop("get", ck[1], "0"), kop("get", ck[0], "0"), "walk 0"]
+            for name in (b"abcd", b"x", ck[1]):
+                for off in range(len(name) + 2):
+                    for pre in ([], [kop("put", name[off:], "6f6c64")] if off <= len(name) else []):
+                        ops += ["new %d" % r, kop("put", name, "31")] + pre + [kop("putkeyalias", name, str(off), "6e6577"),
+                                kop("get", name, "0"), kop("get", name[off:], "0"), "walk 0", "size"]
+            ops += ["new %d" % r]
+            for i, v in enumerate([b"", b"\0", b"x", b"\xff", b"str\0", b"a\0b", b"x" * 59, b"x" * 60, b"x" * 61, b"y" * 59 + b"\0", b"y" * 60 + b"\0",
+                                   bytes(range(256)), b"\n\t\x7f\x80 ~", b"tab\tnl\n\0"]):
+                ops += [kop("put", b"d%d" % i, hexs(v)), "debug"]
+            ops += [kop("put", b"", hexs(b"empty name\0")), kop("put", b"n\nl", "31"), "debug", "clear", "debug"]
+        ops += ["end"]
+        sts.append(Stream("alias-args-debug", ops, history=True,
+                          note="put/putstr of stored+off (get and getnext pointers), names inside stored names, debug() rendering"))
+        if self.tier != "quick":
+            sts.append(Stream("huge-value", ["hugeval 16"], history=False, nomodel=True,
+                              note="one value of 2^32+16 bytes: every reported size and spot-checked bytes, replace, ledger"))
+
+        # 3f. the SAME operations and expected lines on tables created with QHASHTBL_THREADSAFE: every errno report
+        #     (ENOENT of absent keys / end of walk, EINVAL, the unlock must not disturb errno) and every result
+        def with_ts(ops_):
+            return [o + " 1" if o.startswith("new ") and len(o.split()) == 2 else o for o in ops_]
+        for st in list(sts):
+            if st.name in ("chain-surgery", "collisions-ints", "full-hash-collisions", "alias-args-debug"):
+                sts.append(Stream(st.name + ":threadsafe", with_ts(st.ops), history=True, note="same ops, QHASHTBL_THREADSAFE"))
+        keys = [b"a", b"b", b"c", b"d"]
+        alpha = [("put", k) for k in keys] + [("rm", k) for k in keys]
+        ops = []
+        for ln in range(1, 4):
+            for seq in itertools.product(alpha, repeat=ln):
+                ops.append("new 1 1")
+                for i, (o, k) in enumerate(seq):
+                    ops.append(kop("put", k, "%02x" % (0x30 + i)) if o == "put" else kop("rm", k))
+                ops += [kop("get", k, str(i % 2)) for i, k in enumerate(keys)] + ["reset", "next 0", "next 1", "next 0", "next 1", "next 0"] + tail
+        sts.append(Stream("exhaustive-seq<=3-range1:threadsafe", ops, history=True))
+
         # 4. random histories
         nh, nops = (60, 400) if self.tier == "quick" else (400, 2000)
         ops = []
@@ -374,7 +508,11 @@ class TheCheck(Check):
                 if x < 0.02:
                     ops.append("inv")
                 elif x < 0.03:
-                    ops.append("lock")
+                    ops.append(rng.choice(["lock", "debug"]))
+                elif x < 0.06:
+                    ops.append(rng.choice([kop("putalias", k, rng.choice("0123"), str(rng.randrange(6)), str(rng.randrange(6))),
+                                           kop("putalias", k, rng.choice("02"), "0", str(rng.randrange(3))),
+                                           kop("putkeyalias", k, str(rng.randrange(3)), hexs(b"ka%d" % rng.randrange(9)))]))
                 elif x < 0.30:
                     v = bytes(rng.choice([0, rng.randrange(256), rng.randrange(0x30, 0x3a)]) for _ in range(rng.choice([0, 1, 2, 5, 17, 40])))
                     ops.append(kop("put", k, hexs(v)))
